@@ -7,6 +7,8 @@ CONSTANTS
   Observe = TRUE
   ObserveFrom = 1
   TrackDist = TRUE
+  TrackOperand = FALSE
+  AdoptLists = FALSE
   CacheChecksCount = FALSE
 INVARIANT CacheFresh
 INVARIANT GraphAgrees
